@@ -44,7 +44,7 @@ def main():
                 print('re-executing the single recorded schedule (%d choices)' % len(body['violation']['schedule'] if isinstance(body['violation']['schedule'], list) else body['violation']['schedule'].get('choices', [])))
                 res = {'viol': mod.replay_one(body['case'], body['violation']), 'obs': 'single schedule'}
             else:
-                res = mod.run_case(body['case'])
+                res = core.run_case_guarded(mod, body['case'])
             sigs = [v['sig'] for v in res.get('viol', ())]
             for v in res.get('viol', ()):
                 print('  reproduced: sig=%s\n    expected=%s\n    observed=%s' % (v['sig'], v.get('expected'), v.get('observed')))
